@@ -78,12 +78,14 @@ class Res:
         sigj = jsonable(sig or {})
         k = (check, kind, json.dumps(sigj, sort_keys=True))
         self.vcount[k] += 1
-        if k not in self.viol:
+        size = len(repr(details))
+        if k not in self.viol or size < self.viol[k]["_size"]:
             self.viol[k] = {
                 "check": check,
                 "kind": kind,
                 "sig": sigj,
                 "details": jsonable(details),
+                "_size": size,
             }
 
     def merge(self, other: "Res"):
@@ -91,7 +93,8 @@ class Res:
         self.notes.update(other.notes)
         self.vcount.update(other.vcount)
         for k, v in other.viol.items():
-            self.viol.setdefault(k, v)
+            if k not in self.viol or v.get("_size", 0) < self.viol[k].get("_size", 0):
+                self.viol[k] = v
         for s in other.samples:
             if len(self.samples) < MAX_SAMPLES:
                 self.samples.append(s)
@@ -137,6 +140,7 @@ def run_one(mod, case) -> Res:
             traceback=tb[-3000:],
         )
     for v in res.viol.values():
+        v.setdefault("_size", 0)
         v.setdefault("case", jsonable(case))
         v["_case_raw"] = case
     return res
@@ -157,14 +161,24 @@ def parallel(modname, cases, workers=None, chunk=8):
     """Run cases on a fork pool, merge results."""
     workers = workers or int(os.environ.get("JSLMC_WORKERS", "16"))
     total = Res()
+    mod = importlib.import_module(modname)
+    heavy = getattr(mod, "heavy", None)
+    cases = list(cases)
+    if heavy is not None:
+        # heavy cases first, one per task, so they do not serialise at the end
+        hv = [c for c in cases if heavy(c)]
+        lt = [c for c in cases if not heavy(c)]
+        work = [[c] for c in hv] + list(chunks(lt, chunk))
+    else:
+        work = list(chunks(cases, chunk))
     if workers <= 1:
         _init_worker(modname)
-        for ch in chunks(cases, chunk):
+        for ch in work:
             total.merge(_run_chunk(ch))
         return total
     ctx = mp.get_context("fork")
     with ctx.Pool(workers, initializer=_init_worker, initargs=(modname,)) as pool:
-        for r in pool.imap_unordered(_run_chunk, chunks(cases, chunk)):
+        for r in pool.imap_unordered(_run_chunk, work):
             total.merge(r)
     return total
 
@@ -212,6 +226,7 @@ def finish(mod, prop, tier, seed, total: Res, t0, extra_cov=None):
     lines = []
     for (check, kind, sigk), rec in sorted(total.viol.items()):
         case_raw = rec.pop("_case_raw", None)
+        rec.pop("_size", None)
         # Does it match an *open* known finding?  The signature must match for
         # this specific record; other records of the same (check, kind) that do
         # not match were kept separately by the check through distinct kinds.
